@@ -65,10 +65,25 @@ def link_counter_from_pages(case, page_lrus):
     return c
 
 
+class _Lazy(dict):
+    """resolution table that also answers for LRUs the page enumeration did not list (a link end that a broken index no
+    longer enumerates must not crash the oracle: it is resolved on demand)"""
+
+    def __init__(self, case, which):
+        dict.__init__(self)
+        self._case = case
+        self._which = which
+
+    def __missing__(self, lru):
+        v = resolve(self._case, lru)[self._which]
+        self[lru] = v
+        return v
+
+
 def resolution_of_pages(case):
-    """(pages dict lru->crawled as enumerated, R dict lru->weid or None, prefix of each page or None)"""
+    """(pages dict lru->crawled as enumerated, R: lru->weid or None, P: lru->prefix or None)"""
     pg = pages(case)
-    R, P = {}, {}
+    R, P = _Lazy(case, 0), _Lazy(case, 1)
     for l, _ in pg:
         w, p = resolve(case, l)
         R[l] = w
